@@ -45,7 +45,7 @@ Configs ==
                               \cup {Raw(<<Cap + 1, 1, Cap + 1>>, Shared(3), {}, 2, Cap + 1), Raw(<<1, Cap, 1>>, Ident(3), {1}, 6, Cap)}
     [] Family = "single3"  -> Gen(3, SizeSet, {2, 3}, TRUE, 1, {0})
     [] Family = "shard3"   -> Gen(3, SizeSet \ {0}, {2, 6}, TRUE, 1, {Cap + 1, 2 * Cap})
-    [] Family = "four"     -> Gen(4, {1, Cap + 1}, {3}, TRUE, 1, {0})
+    [] Family = "four"     -> Gen(4, {1, Cap + 1}, {3}, FALSE, 1, {0})
                               \cup GenV({<<Cap + 1, 1, 2 * Cap, Cap>>, <<2 * Cap, Cap + 1, Cap + 1, 1>>}, {2, 3}, 1, {0, 2 * Cap})
                               \cup GenV({<<0, Cap, Cap, 1>>}, {2, 3}, 1, {0})
 
